@@ -259,6 +259,9 @@ pub struct FieldCtx {
     /// sorted by value: (cos value, field image)
     table: Vec<(f64, u64)>,
     pub misses: Vec<f64>,
+    /// bit patterns of constants that are not cosines of rational angles but f64 roundings of simple rationals (e.g. 1/96):
+    /// they are converted faithfully, as the dyadic rational the f64 *is*
+    pub rational_consts: Vec<u64>,
     pub lookups: u64,
     pub rational_hits: u64,
     pub int_conversions: u64,
@@ -297,9 +300,42 @@ impl FieldCtx {
                 return Fp(img);
             }
         }
+        if self.rational_consts.contains(&v.to_bits()) {
+            self.rational_hits += 1;
+            return dyadic_image(v);
+        }
         self.misses.push(v);
         Fp(0)
     }
+}
+
+/// The field image of the dyadic rational that the finite f64 `v` is (exact, faithful conversion)
+fn dyadic_image(v: f64) -> Fp {
+    if v == 0.0 {
+        return Fp(0);
+    }
+    let bits = v.to_bits();
+    let neg = (bits >> 63) != 0;
+    let exp_bits = ((bits >> 52) & 0x7ff) as i64;
+    let frac = bits & ((1u64 << 52) - 1);
+    let (mant, exp) = if exp_bits == 0 { (frac, -1074i64) } else { (frac | (1u64 << 52), exp_bits - 1075) };
+    let m = Fp::new(mant);
+    let two = Fp::new(2);
+    let scaled = if exp >= 0 { m * two.pow(exp as u64) } else { m * two.inv().pow((-exp) as u64) };
+    if neg {
+        -scaled
+    } else {
+        scaled
+    }
+}
+
+/// Is v (within a relative 4e-16) a fraction with a denominator below 2^20?
+fn near_simple_rational(v: f64) -> bool {
+    let a = v.abs();
+    if !(a.is_finite()) || a == 0.0 || a > 1e6 {
+        return false;
+    }
+    simplest_between(a * (1.0 - 4e-16), a * (1.0 + 4e-16), 1 << 20).is_some()
 }
 
 #[derive(Debug, Clone)]
@@ -471,11 +507,13 @@ pub struct FieldInfo {
     pub rational_hits: u64,
     pub int_conversions: u64,
     pub table_len: usize,
+    pub rounded_rational_consts: usize,
 }
 
 /// Run `build` (which plans/constructs transforms over `Fp`) until every constant it converts is in the table.
 /// `seed_orders`: orders to start from (the length n itself so that the reference kernel exists).
 pub fn with_field<R>(seed_orders: &[u64], mut build: impl FnMut() -> R) -> Result<(R, FieldInfo), FieldErr> {
+    CTX.with(|c| c.borrow_mut().rational_consts.clear());
     let mut orders: Vec<u64> = vec![4, 8];
     for &m in seed_orders {
         if m >= 1 && !orders.contains(&m) {
@@ -506,6 +544,7 @@ pub fn with_field<R>(seed_orders: &[u64], mut build: impl FnMut() -> R) -> Resul
                     rational_hits: c.rational_hits,
                     int_conversions: c.int_conversions,
                     table_len: c.table.len(),
+                    rounded_rational_consts: c.rational_consts.len(),
                 }
             });
             return Ok((r, info));
@@ -532,7 +571,19 @@ pub fn with_field<R>(seed_orders: &[u64], mut build: impl FnMut() -> R) -> Resul
                         added = true;
                     }
                 }
-                None => return Err(FieldErr::Unidentifiable(v)),
+                None => {
+                    if near_simple_rational(v) {
+                        CTX.with(|c| {
+                            let mut c = c.borrow_mut();
+                            if !c.rational_consts.contains(&v.to_bits()) {
+                                c.rational_consts.push(v.to_bits());
+                            }
+                        });
+                        added = true;
+                    } else {
+                        return Err(FieldErr::Unidentifiable(v));
+                    }
+                }
             }
         }
         if !added {
